@@ -64,6 +64,7 @@ structure Config where
   regClasses : List RegClass
   syntaxes : List SynDesc
   grammar : List Prod
+  ranks : List (String × Nat)        -- a ranking of the nonterminals ([] when the grammar is recursive)
   deriving Repr, Inhabited
 
 /-! ## flat syntaxes (constructor operands expanded) -/
@@ -81,21 +82,21 @@ inductive Leaf where
 
 def lookup (tab : List SynDesc) (n : String) : Option SynDesc := tab.find? (·.name == n)
 
-/-- flattenings of an element list, given the flattenings of a constructor-option list -/
+/-- flattenings of one element, given the flattenings of a constructor-option list -/
+def headLeaves (sub : List String → List (List Leaf)) : Elem → List (List Leaf)
+  | .word s => [[.word s.toList]]
+  | .ws s => [[.ws s.toList]]
+  | .glyph c => [[.glyph c]]
+  | .op _ (.reg c) => [[.reg c]]
+  | .op _ .int => [[.int]]
+  | .op _ .str => [[.label]]
+  | .op _ (.other d) => [[.other d]]
+  | .op _ (.cons opts) => sub opts
+
+/-- flattenings of an element list -/
 def expandElems (sub : List String → List (List Leaf)) : List Elem → List (List Leaf)
   | [] => [[]]
-  | e :: es =>
-    let heads : List (List Leaf) :=
-      match e with
-      | .word s => [[.word s.toList]]
-      | .ws s => [[.ws s.toList]]
-      | .glyph c => [[.glyph c]]
-      | .op _ (.reg c) => [[.reg c]]
-      | .op _ .int => [[.int]]
-      | .op _ .str => [[.label]]
-      | .op _ (.other d) => [[.other d]]
-      | .op _ (.cons opts) => sub opts
-    heads.flatMap fun h => (expandElems sub es).map fun t => h ++ t
+  | e :: es => (headLeaves sub e).flatMap fun h => (expandElems sub es).map fun t => h ++ t
 
 /-- all flattenings of a syntax: every choice of constructor for every constructor operand, recursively.
     `fuel` bounds the nesting depth (a missing class or exhausted fuel yields an `.other` leaf, which no
@@ -108,22 +109,23 @@ def expand (tab : List SynDesc) : Nat → List Elem → List (List Leaf)
       | some d => expand tab f d.elems
       | none => [[.other "missing"]]) es
 
-/-- one flattening of an element list selected by option indices (depth first, left to right) -/
+/-- one flattening of an element, selected by option indices (depth first, left to right) -/
+def headChoice (sub : List String → List Nat → Option (List Leaf × List Nat)) :
+    Elem → List Nat → Option (List Leaf × List Nat)
+  | .word s, ch => some ([.word s.toList], ch)
+  | .ws s, ch => some ([.ws s.toList], ch)
+  | .glyph c, ch => some ([.glyph c], ch)
+  | .op _ (.reg c), ch => some ([.reg c], ch)
+  | .op _ .int, ch => some ([.int], ch)
+  | .op _ .str, ch => some ([.label], ch)
+  | .op _ (.other d), ch => some ([.other d], ch)
+  | .op _ (.cons opts), ch => sub opts ch
+
 def chooseElems (sub : List String → List Nat → Option (List Leaf × List Nat)) :
     List Elem → List Nat → Option (List Leaf × List Nat)
   | [], ch => some ([], ch)
   | e :: es, ch =>
-    let head : Option (List Leaf × List Nat) :=
-      match e with
-      | .word s => some ([.word s.toList], ch)
-      | .ws s => some ([.ws s.toList], ch)
-      | .glyph c => some ([.glyph c], ch)
-      | .op _ (.reg c) => some ([.reg c], ch)
-      | .op _ .int => some ([.int], ch)
-      | .op _ .str => some ([.label], ch)
-      | .op _ (.other d) => some ([.other d], ch)
-      | .op _ (.cons opts) => sub opts ch
-    match head with
+    match headChoice sub e ch with
     | none => none
     | some (h, ch1) =>
       match chooseElems sub es ch1 with
